@@ -41,10 +41,10 @@ def run(ctx):
     shared = []
     curves = ["SECP112r1"] if ctx.quick else ["SECP112r1", "NIST192p", "BRAINPOOLP160r1"]
     for cname in curves:
-        for scenario, aop in (("gen", "mul"), ("gen", "muladd"), ("pub", "mul"), ("pub", "affine"), ("pub", "muladd"), ("pub", "xy"), ("pub", "eq")):
+        for scenario, aop in (("gen", "mul"), ("gen", "muladd"), ("genz", "mul"), ("gentab", "mul"), ("gentab", "muladd"), ("pub", "mul"), ("pub", "affine"), ("pub", "muladd"), ("pub", "xy"), ("pub", "eq")):
             k1 = rng.randrange(3, 2 ** 100)
             k2 = rng.randrange(3, 2 ** 100)
-            stride = 16 if scenario == "gen" else (1 if aop in ("xy", "eq") else 4)
+            stride = 16 if scenario in ("gen", "genz") else (1 if aop in ("xy", "eq") else (2 if scenario == "gentab" else 4))
             for off in range(stride):
                 shared.append(f"prop.c20shared {cname} {scenario} {aop} {k1} {k2} {stride} {off}")
     # the twisted-Edwards generators have their own table construction: a sample of its preemption points
